@@ -541,6 +541,11 @@ func init() {
 			}
 			corpus = append(corpus, []*TNode{wide}, append(roots, wide))
 		}
+		// long tags and pointers (no limit in the statement either)
+		for _, n := range []int{8, 31, 32, 33, 64, 65, 255, 256, 4097} {
+			tg := "_" + strings.Repeat("T", n-1)
+			corpus = append(corpus, []*TNode{T(tg, "v", strings.Repeat("p", n), T(strings.Repeat("9", n), "", strings.Repeat("q", n-1)+"é")), T("INDI", "", strings.Repeat("I", n), T(tg, "", ""))})
+		}
 		// very long values: the property puts no limit on string length
 		for _, n := range []int{4095, 4096, 65535, 65536, 70000, c.N(200000, 2000000)} {
 			corpus = append(corpus, []*TNode{T("HEAD", "", ""), T("NOTE", strings.Repeat("x", n-1)+"y", "N1", T("CONT", strings.Repeat("z ", n/2)+"w", ""))})
